@@ -15,7 +15,7 @@ for d in sorted(glob.glob(V + "/seeded/C*-*"), key=key):
         if t == "quick" and det.get("quick") is True: return "detected"
         return "–"
     q, th = st("quick"), st("thorough")
-    if m.get("status", "").startswith("obsolete"): q = th = "n/a (no longer breaks the property on HEAD, see meta.json)"
+    if m.get("status", "").startswith("obsolete"): q = th = m.get("status_note", "n/a (no longer breaks the property on HEAD, see meta.json)")
     if q == "detected": th = "(detected by quick)"
     s = re.sub(r"\s+", " ", m.get("summary", ""))[:170].replace("|", "/")
     n = re.sub(r"\s+", " ", m.get("needs", ""))[:130].replace("|", "/")
